@@ -101,6 +101,15 @@ func UntarDirectory(r io.Reader, destDir string) error {
 		return fmt.Errorf("failed to create destination directory: %w", err)
 	}
 
+	// Resolve the real location of the destination once. The lexical checks in
+	// sanitizeTarPath and validateSymlink cannot see symlinks that earlier entries
+	// of the same archive created inside destDir, so every entry is additionally
+	// checked against the real (symlink-resolved) location it would be written to.
+	realDest, err := filepath.EvalSymlinks(destDir)
+	if err != nil {
+		return fmt.Errorf("failed to resolve destination directory: %w", err)
+	}
+
 	// Create gzip reader
 	gzr, err := gzip.NewReader(r)
 	if err != nil {
@@ -128,12 +137,27 @@ func UntarDirectory(r io.Reader, destDir string) error {
 
 		switch header.Typeflag {
 		case tar.TypeDir:
+			if err := ensureInsideDest(realDest, targetPath); err != nil {
+				return err
+			}
+
 			// Create directory
 			if err := os.MkdirAll(targetPath, os.FileMode(header.Mode)); err != nil {
 				return fmt.Errorf("failed to create directory %s: %w", targetPath, err)
 			}
 
 		case tar.TypeReg:
+			if err := ensureInsideDest(realDest, filepath.Dir(targetPath)); err != nil {
+				return err
+			}
+
+			// Never write through an existing symlink: replace it
+			if fi, err := os.Lstat(targetPath); err == nil && fi.Mode()&os.ModeSymlink != 0 {
+				if err := os.Remove(targetPath); err != nil {
+					return fmt.Errorf("failed to replace symlink %s: %w", targetPath, err)
+				}
+			}
+
 			// Create parent directories if needed
 			if err := os.MkdirAll(filepath.Dir(targetPath), 0755); err != nil {
 				return fmt.Errorf("failed to create parent directory: %w", err)
@@ -157,6 +181,9 @@ func UntarDirectory(r io.Reader, destDir string) error {
 			if err := validateSymlink(destDir, targetPath, header.Linkname); err != nil {
 				return err
 			}
+			if err := ensureInsideDest(realDest, filepath.Dir(targetPath)); err != nil {
+				return err
+			}
 
 			// Create parent directories if needed
 			if err := os.MkdirAll(filepath.Dir(targetPath), 0755); err != nil {
@@ -175,6 +202,12 @@ func UntarDirectory(r io.Reader, destDir string) error {
 			// Hard links - validate target is within destDir
 			linkTarget, err := sanitizeTarPath(destDir, header.Linkname)
 			if err != nil {
+				return err
+			}
+			if err := ensureInsideDest(realDest, linkTarget); err != nil {
+				return err
+			}
+			if err := ensureInsideDest(realDest, filepath.Dir(targetPath)); err != nil {
 				return err
 			}
 
@@ -234,6 +267,35 @@ func sanitizeTarPath(destDir, name string) (string, error) {
 	}
 
 	return targetPath, nil
+}
+
+// ensureInsideDest verifies that path, after resolving symbolic links in its
+// deepest existing ancestor, is still located inside realDest (the resolved
+// destination directory). Components that do not exist yet cannot be symlinks,
+// so creating them below a verified ancestor stays inside the destination.
+func ensureInsideDest(realDest, path string) error {
+	existing := path
+	for {
+		if _, err := os.Lstat(existing); err == nil {
+			break
+		}
+		parent := filepath.Dir(existing)
+		if parent == existing {
+			break
+		}
+		existing = parent
+	}
+
+	resolved, err := filepath.EvalSymlinks(existing)
+	if err != nil {
+		return fmt.Errorf("failed to resolve path %s: %w", existing, err)
+	}
+
+	if resolved != realDest && !strings.HasPrefix(resolved, realDest+string(filepath.Separator)) {
+		return fmt.Errorf("path escapes destination directory through a symbolic link: %s", path)
+	}
+
+	return nil
 }
 
 // validateSymlink checks if a symlink target is safe (doesn't escape the destination).
